@@ -31,12 +31,18 @@ Model/Envelope.vos Model/Envelope.vok Model/Envelope.required_vos: Model/Envelop
 Model/Vhd.vo Model/Vhd.glob Model/Vhd.v.beautified Model/Vhd.required_vo: Model/Vhd.v Base/Arith.vo Base/Plan.vo Base/Table.vo Gen/Consts.vo
 Model/Vhd.vio: Model/Vhd.v Base/Arith.vio Base/Plan.vio Base/Table.vio Gen/Consts.vio
 Model/Vhd.vos Model/Vhd.vok Model/Vhd.required_vos: Model/Vhd.v Base/Arith.vos Base/Plan.vos Base/Table.vos Gen/Consts.vos
+Proofs/EnvKeystore.vo Proofs/EnvKeystore.glob Proofs/EnvKeystore.v.beautified Proofs/EnvKeystore.required_vo: Proofs/EnvKeystore.v Base/Plan.vo Model/Envelope.vo Model/EnvKeystore.vo Proofs/Envelope.vo
+Proofs/EnvKeystore.vio: Proofs/EnvKeystore.v Base/Plan.vio Model/Envelope.vio Model/EnvKeystore.vio Proofs/Envelope.vio
+Proofs/EnvKeystore.vos Proofs/EnvKeystore.vok Proofs/EnvKeystore.required_vos: Proofs/EnvKeystore.v Base/Plan.vos Model/Envelope.vos Model/EnvKeystore.vos Proofs/Envelope.vos
+Proofs/Envelope.vo Proofs/Envelope.glob Proofs/Envelope.v.beautified Proofs/Envelope.required_vo: Proofs/Envelope.v Base/Plan.vo Base/Table.vo Base/Layout.vo Model/Envelope.vo Gen/Consts.vo Gen/Layouts.vo Gen/Enums.vo Gen/EnvelopeTables.vo
+Proofs/Envelope.vio: Proofs/Envelope.v Base/Plan.vio Base/Table.vio Base/Layout.vio Model/Envelope.vio Gen/Consts.vio Gen/Layouts.vio Gen/Enums.vio Gen/EnvelopeTables.vio
+Proofs/Envelope.vos Proofs/Envelope.vok Proofs/Envelope.required_vos: Proofs/Envelope.v Base/Plan.vos Base/Table.vos Base/Layout.vos Model/Envelope.vos Gen/Consts.vos Gen/Layouts.vos Gen/Enums.vos Gen/EnvelopeTables.vos
 Proofs/Vhd.vo Proofs/Vhd.glob Proofs/Vhd.v.beautified Proofs/Vhd.required_vo: Proofs/Vhd.v Base/Arith.vo Base/Plan.vo Base/Table.vo Model/Vhd.vo
 Proofs/Vhd.vio: Proofs/Vhd.v Base/Arith.vio Base/Plan.vio Base/Table.vio Model/Vhd.vio
 Proofs/Vhd.vos Proofs/Vhd.vok Proofs/Vhd.required_vos: Proofs/Vhd.v Base/Arith.vos Base/Plan.vos Base/Table.vos Model/Vhd.vos
 Props/C04.vo Props/C04.glob Props/C04.v.beautified Props/C04.required_vo: Props/C04.v Base/Plan.vo Base/Table.vo Model/Vhd.vo Proofs/Vhd.vo
 Props/C04.vio: Props/C04.v Base/Plan.vio Base/Table.vio Model/Vhd.vio Proofs/Vhd.vio
 Props/C04.vos Props/C04.vok Props/C04.required_vos: Props/C04.v Base/Plan.vos Base/Table.vos Model/Vhd.vos Proofs/Vhd.vos
-Props/C16.vo Props/C16.glob Props/C16.v.beautified Props/C16.required_vo: Props/C16.v Model/Envelope.vo Model/EnvKeystore.vo
-Props/C16.vio: Props/C16.v Model/Envelope.vio Model/EnvKeystore.vio
-Props/C16.vos Props/C16.vok Props/C16.required_vos: Props/C16.v Model/Envelope.vos Model/EnvKeystore.vos
+Props/C16.vo Props/C16.glob Props/C16.v.beautified Props/C16.required_vo: Props/C16.v Base/Plan.vo Base/Layout.vo Model/Envelope.vo Model/EnvKeystore.vo Proofs/Envelope.vo Proofs/EnvKeystore.vo Gen/EnvelopeTables.vo
+Props/C16.vio: Props/C16.v Base/Plan.vio Base/Layout.vio Model/Envelope.vio Model/EnvKeystore.vio Proofs/Envelope.vio Proofs/EnvKeystore.vio Gen/EnvelopeTables.vio
+Props/C16.vos Props/C16.vok Props/C16.required_vos: Props/C16.v Base/Plan.vos Base/Layout.vos Model/Envelope.vos Model/EnvKeystore.vos Proofs/Envelope.vos Proofs/EnvKeystore.vos Gen/EnvelopeTables.vos
